@@ -17,6 +17,14 @@ def run_stream(rep, ops, keyf, stream):
     impl = impl_lines(ops)
     model = model_lines(["m." + o for o in ops])
     spec = model_lines(["s." + o for o in ops])
+    # num.rs transcribed over the limb model (HyNL, theorem limb_level_refines): every third `num` op
+    lidx = [i for i, o in enumerate(ops) if o.startswith("num ") and i % 3 == 0]
+    limb = dict(zip(lidx, model_lines(["l." + ops[i] for i in lidx]))) if lidx else {}
+    for i, a in limb.items():
+        if a == "BADOP": continue
+        rep.count(stream + "-limb-level")
+        if a != impl[i]:
+            rep.violation("correspondence", {"what": "num.rs over the limb model (HyNL) differs from the implementation", "op": ops[i], "impl": impl[i], "limb_model": a})
     for o, a, m, s in zip(ops, impl, model, spec):
         rep.count(stream)
         if not cmp_spec(a, s):
